@@ -125,17 +125,36 @@ pub fn config(level: &str, doc: bool) -> ParserConfig<'static> {
     ParserConfig::new(level_of(level), None, HashMap::new(), LuaFeaturesSet::default(), doc)
 }
 
+/// CPU time consumed by the calling thread so far, in microseconds (Linux: /proc/thread-self/schedstat,
+/// first field = nanoseconds on a CPU); None when unavailable.  Wall-clock is useless on a loaded machine.
+pub fn thread_cpu_micros() -> Option<u128> {
+    let s = std::fs::read_to_string("/proc/thread-self/schedstat").ok()?;
+    let ns: u128 = s.split_whitespace().next()?.parse().ok()?;
+    Some(ns / 1000)
+}
+
 #[derive(Debug, Clone)]
 pub struct Outcome {
     pub errors: usize,
     pub micros: u128,
     pub depth: u64,
+    pub tdepth: u64,
+    pub steps: u64,
     pub text_ok: bool,
     pub panicked: Option<String>,
 }
 
-fn depth_reset() {}
-fn depth_high_water() -> u64 { 0 }
+fn depth_reset() {
+    emmylua_parser::verif_depth::reset();
+}
+/// (nesting level high-water, doc type level high-water, token pump steps) of the calling thread since reset
+fn depth_counters() -> (u64, u64, u64) {
+    (
+        emmylua_parser::verif_depth::high_water() as u64,
+        emmylua_parser::verif_depth::type_high_water() as u64,
+        emmylua_parser::verif_depth::pump_steps(),
+    )
+}
 
 /// parse on a fresh thread with `stack` bytes of stack (tree built, inspected and dropped on that thread)
 pub fn parse_on_thread(text: String, level: String, doc: bool, stack: usize) -> Outcome {
@@ -144,10 +163,14 @@ pub fn parse_on_thread(text: String, level: String, doc: bool, stack: usize) -> 
         .spawn(move || {
             depth_reset();
             let t0 = Instant::now();
+            let c0 = thread_cpu_micros();
             let r = vh_common::guarded(|| {
                 let tree = LuaParser::parse(&text, config(&level, doc));
                 let n = tree.get_errors().len();
-                let micros = t0.elapsed().as_micros();
+                let micros = match (c0, thread_cpu_micros()) {
+                    (Some(a), Some(b)) => b.saturating_sub(a),
+                    _ => t0.elapsed().as_micros(),
+                };
                 // the tree must be usable: total text length of the root (iterative in rowan)
                 let root = tree.get_red_root();
                 let len: u32 = root.text_range().len().into();
@@ -156,18 +179,18 @@ pub fn parse_on_thread(text: String, level: String, doc: bool, stack: usize) -> 
                 if std::env::var("C02_FORGET").is_ok() { std::mem::forget(tree); } else { drop(tree); }
                 (n, micros, ok)
             });
-            let depth = depth_high_water();
+            let (depth, tdepth, steps) = depth_counters();
             match r {
-                Ok((n, micros, ok)) => Outcome { errors: n, micros, depth, text_ok: ok, panicked: None },
-                Err(m) => Outcome { errors: 0, micros: t0.elapsed().as_micros(), depth, text_ok: false, panicked: Some(m) },
+                Ok((n, micros, ok)) => Outcome { errors: n, micros, depth, tdepth, steps, text_ok: ok, panicked: None },
+                Err(m) => Outcome { errors: 0, micros: t0.elapsed().as_micros(), depth, tdepth, steps, text_ok: false, panicked: Some(m) },
             }
         })
         .expect("spawn");
-    h.join().unwrap_or(Outcome { errors: 0, micros: 0, depth: 0, text_ok: false, panicked: Some("thread died".into()) })
+    h.join().unwrap_or(Outcome { errors: 0, micros: 0, depth: 0, tdepth: 0, steps: 0, text_ok: false, panicked: Some("thread died".into()) })
 }
 
 fn outcome_json(o: &Outcome) -> Value {
-    json!({"errors": o.errors, "us": o.micros as u64, "depth": o.depth, "text_ok": o.text_ok, "panic": o.panicked})
+    json!({"errors": o.errors, "us": o.micros as u64, "depth": o.depth, "tdepth": o.tdepth, "steps": o.steps, "text_ok": o.text_ok, "panic": o.panicked})
 }
 
 // ------------------------------------------------------------------------------------------------
